@@ -443,6 +443,8 @@ def arr_method(R, E, arr, name, args, kwargs, node):
         return NdArr.from_fn(arr.cell.name, arr.shape, k, lambda *i: cast(fs.get(*i), k),
                              (lambda *i: fs.isnan(*i)) if fs.cell.nan is not None else None)
     if name == "sum":
+        if arr.kind == "bool" and arr.ndim == 1 and not args and not kwargs:
+            return R.mask_info(E, arr)[2]          # number of selected rows (ghost count of the mask)
         return R.np_sum(E, arr, *args, **kwargs)
     if name == "mean":
         return R.np_mean(E, arr, *args, **kwargs)
